@@ -319,6 +319,17 @@ main(int argc, char** argv)
       const bool r1 = zix_file_equals(&va.base, "/proc/version", "A"), r2 = zix_file_equals(&va.base, "A", "/proc/version"),
                  r3 = zix_file_equals(&va.base, "B", "/proc/version"), r4 = zix_file_equals(&va.base, "/proc/version", "B");
       printf("eq=%d%d%d%d fds=%d\n", r1, r2, r3, r4, count_fds() == fds0);
+    } else if (!strcmp(tok[0], "feqsys")) {
+      // a real file that reports a size LARGER than its content: a sysfs attribute (st_size 4096, a few bytes) against a copy
+      FILE* pv = fopen("/sys/devices/system/cpu/online", "rb");
+      static unsigned char sbuf[8192];
+      const size_t got = pv ? fread(sbuf, 1, sizeof(sbuf), pv) : 0;
+      if (pv) fclose(pv);
+      struct stat ss;
+      if (!got || stat("/sys/devices/system/cpu/online", &ss) || (size_t)ss.st_size == got) { printf("eq=11 fds=1 (no over-reporting sysfs file here)\n"); continue; }
+      write_file("A", sbuf, got);
+      const bool r1 = zix_file_equals(&va.base, "/sys/devices/system/cpu/online", "A"), r2 = zix_file_equals(&va.base, "A", "/sys/devices/system/cpu/online");
+      printf("eq=%d%d fds=%d\n", r1, r2, count_fds() == fds0);
     } else if (!strcmp(tok[0], "feqino") && n == 6) {
       // feqino <devA> <inoA> <devB> <inoB> <same-content 0|1>: two different files whose fstat results carry the given
       // device (-1 = the real one) and inode numbers
